@@ -9,11 +9,12 @@ Variable orc : nat -> nat -> cres.
 Variable lname pname : nat -> Z.
 Variables (n0 lag : nat) (dmin dmax D : Z).
 Hypothesis Hlisten : listening orc n0 lag.
+Hypothesis Hnoraise : no_raise orc.
 Hypothesis Hdmin : 0 < dmin.
 Hypothesis Hdd : dmin <= dmax.
 Hypothesis HD : (Z.of_nat lag + 1) * dmax < D.
 
-Notation serviceConnect := (Model.serviceConnect orc lname pname).
+Notation serviceConnect := (Model.sc_core orc lname pname).
 Notation service := (Model.service orc lname pname).
 Notation step := (Model.step orc lname pname).
 Notation run := (Model.run orc lname pname).
@@ -25,7 +26,9 @@ Definition PhB (c : client) : Prop :=
   accepted c = false /\ cutoff c = false /\ (exists sid, cs c = Some sid /\ (n0 <= sid)%nat) /\
   (att c <= lag)%nat /\ now c - tstart c <= Z.of_nat (att c) * dmax.
 Definition rem (c : client) : Z := tstart c + tdur c - now c.
-Definition NotStale (d : drv) (c : client) : Prop := d = Bare -> accepted c = true -> cutoff c = false.
+(* the bare client is serviced exactly like the Patron connection part (service_old): the step
+   lemmas are proved for Patron and Stack and transported to Bare at the end *)
+Definition NotStale (d : drv) (c : client) : Prop := d <> Bare.
 
 Lemma Dpos : 0 < D.
 Proof. nia. Qed.
@@ -68,6 +71,7 @@ Proof.
         right; right. split; [lia|]. split; [reflexivity|]. split; [reflexivity|].
         intros sid1 E Hf Hc; inversion E; subst sid1.
         destruct (HL Hf) as [HK|[HK _]]; [congruence|]. repeat split; auto.
+    + exfalso. exact (Hnoraise s0 at0 Hk).
   - (* no socket: reopen first *)
     destruct (classify (orc ns0 0%nat)) eqn:Hk.
     + split; [repeat split; auto|]. split; [reflexivity|]. split; [reflexivity|]. left. split; reflexivity.
@@ -83,6 +87,7 @@ Proof.
       * split; [repeat split; auto; lia|]. split; [reflexivity|]. split; [reflexivity|].
         right; right. split; [lia|]. split; [reflexivity|]. split; [reflexivity|].
         intros sid1 E; discriminate.
+    + exfalso. exact (Hnoraise ns0 0%nat Hk).
 Qed.
 
 
@@ -134,17 +139,17 @@ Definition StepPost (d : drv) (c c' : client) : Prop :=
   (Done c' \/ PhB c' \/ (0 < rem c' /\ rem c' <= rem c - dmin)).
 
 (* connected and not cut off: a paced step (no cut) changes nothing but the clock *)
-Lemma connected_step d c dt : Inv c -> accepted c = true -> cutoff c = false -> 0 <= dt ->
+Lemma connected_step d c dt : d <> Bare -> Inv c -> accepted c = true -> cutoff c = false -> 0 <= dt ->
   StepPost d c (service d (advance c dt)).
 Proof.
-  intros HI Ha Hc Hdt.
+  intros HNB HI Ha Hc Hdt.
   assert (E : service d (advance c dt) = advance c dt).
-  { destruct d; cbv [Model.service].
-    - unfold Model.serviceConnect. replace (accepted (advance c dt)) with true by (dc c; prims; auto). reflexivity.
-    - unfold Model.patron_service. cbv zeta.
+  { rewrite service_old. destruct d.
+    - congruence.
+    - unfold patron_old, Model.cutoff_branch. cbv zeta.
       replace (cutoff (advance c dt)) with false by (dc c; prims; auto). cbn [andb].
       replace (accepted (advance c dt)) with true by (dc c; prims; auto). reflexivity.
-    - unfold Model.stack_service.
+    - unfold stack_old.
       replace (cutoff (advance c dt)) with false by (dc c; prims; auto).
       replace (accepted (advance c dt)) with true by (dc c; prims; auto). reflexivity. }
   rewrite E. unfold StepPost. preds. dc c. prims. subst.
@@ -159,9 +164,9 @@ Proof.
   destruct (accepted c) eqn:Ha; [destruct (cutoff c) eqn:Hc|].
   - (* stale: connected flag set but cut off -- only Patron / Stack get here *)
     destruct d.
-    + exfalso. specialize (HN eq_refl Ha). congruence.
+    + exfalso. apply HN. reflexivity.
     + (* Patron *)
-      cbv [Model.service]. unfold Model.patron_service. cbv zeta.
+      rewrite service_old. unfold patron_old, Model.cutoff_branch. cbv zeta.
       destruct (cutoff (advance c dt) && reconn (advance c dt) && timed_out (advance c dt)) eqn:Hb.
       * set (c1 := restart (reopen (advance c dt))).
         assert (HI1 : Inv c1) by (subst c1; preds; dc c; destruct cs0; prims; intuition lia).
@@ -188,7 +193,7 @@ Proof.
         repeat split; auto; try (intros; congruence); try tauto; try (intros (? & ?); congruence).
         right; right. lia.
     + (* Stack *)
-      cbv [Model.service]. unfold Model.stack_service.
+      rewrite service_old. unfold stack_old.
       replace (cutoff (advance c dt)) with true by (dc c; prims; auto).
       destruct (reconn (advance c dt) && timed_out (advance c dt)) eqn:Hb.
       * unfold StepPost. preds. dc c. destruct cs0; prims; subst;
@@ -205,11 +210,9 @@ Proof.
   - (* not connected *)
     pose proof (sc_step c dt HI Hdt Ha) as H. cbv zeta in H.
     assert (Ha2 : accepted (advance c dt) = false) by (dc c; prims; exact Ha).
-    destruct d; cbv [Model.service].
-    + destruct H as (H1 & H2 & H3 & H4). unfold StepPost.
-      split; [exact H1|]. split; [intros _; exact H2|]. split; [intros (X & _); congruence|].
-      split; [exact H3 | exact H4].
-    + unfold Model.patron_service. cbv zeta.
+    rewrite service_old. destruct d.
+    + exfalso. apply HN. reflexivity.
+    + unfold patron_old, Model.cutoff_branch. cbv zeta.
       destruct (cutoff (advance c dt) && reconn (advance c dt) && timed_out (advance c dt)) eqn:Hb.
       * (* cut off (after an explicit close) and timed out: reopen, restart, connect *)
         set (c1 := restart (reopen (advance c dt))).
@@ -234,7 +237,7 @@ Proof.
       * rewrite Ha2. destruct H as (H1 & H2 & H3 & H4). unfold StepPost.
         split; [exact H1|]. split; [intro; discriminate|]. split; [intros (X & _); congruence|].
         split; [exact H3 | exact H4].
-    + unfold Model.stack_service.
+    + unfold stack_old.
       destruct (cutoff (advance c dt)) eqn:Hcu.
       * assert (Hcu0 : cutoff c = true) by (dc c; prims; auto).
         destruct (reconn (advance c dt) && timed_out (advance c dt)) eqn:Hb.
@@ -266,18 +269,16 @@ Proof.
 Qed.
 
 
-Lemma notstale_done d c : Done c -> NotStale d c.
-Proof. intros (_ & H) _ _. exact H. Qed.
 
 Lemma paced_cons t ts : paced (t :: ts) dmin dmax ->
   (dmin <= fst t <= dmax) /\ snd t = false /\ paced ts dmin dmax.
 Proof. unfold paced. intros H. inversion H; subst. tauto. Qed.
 
-Lemma done_run d ts : forall c, Inv c -> Done c -> paced ts dmin dmax -> Done (run d c ts).
+Lemma done_run d (HNB : d <> Bare) ts : forall c, Inv c -> Done c -> paced ts dmin dmax -> Done (run d c ts).
 Proof.
   induction ts as [|t ts IH]; intros c HI HDn Hp; [exact HDn|].
   apply paced_cons in Hp. destruct Hp as (Hdt & Hc & Hp). rewrite run_cons.
-  destruct (step_cases d c t HI (notstale_done d c HDn) Hdt Hc) as (I' & _ & Dn & _).
+  destruct (step_cases d c t HI HNB Hdt Hc) as (I' & _ & Dn & _).
   apply IH; auto.
 Qed.
 
@@ -294,7 +295,7 @@ Proof.
     + apply IH; auto; [lia | cbn in Hl; lia].
 Qed.
 
-Lemma phA_run d : forall n ts c, Inv c -> NotStale d c -> rem c <= Z.of_nat n * dmin ->
+Lemma phA_run d : forall n ts c, Inv c -> NotStale d c -> rem c <= (Z.of_nat n + 1) * dmin ->
   paced ts dmin dmax -> (n + lag + 2 <= length ts)%nat -> Done (run d c ts).
 Proof.
   induction n as [|n IH]; intros ts c HI HN Hr Hp Hl;
@@ -311,24 +312,41 @@ Qed.
 
 End Live.
 
+(* the bare client (with the cut-off branch of serviceConnect) steps exactly like Patron *)
+Lemma step_bare orc lname pname c t :
+  step orc lname pname Bare c t = step orc lname pname Patron c t.
+Proof. unfold Model.step. cbv zeta. rewrite !service_old. reflexivity. Qed.
+
+Lemma run_bare orc lname pname ts : forall c,
+  run orc lname pname Bare c ts = run orc lname pname Patron c ts.
+Proof.
+  induction ts as [|t ts IH]; intros c; [reflexivity|].
+  rewrite !run_cons, step_bare. apply IH.
+Qed.
+
 (* closed form of the bounded-liveness statement *)
 Theorem reconnect_bounded_thm :
   forall (orc : nat -> nat -> cres) (lname pname : nat -> Z) (d : drv) (c : client) (ts : list tick)
          (lag n : nat) (dmin dmax : Z),
     reconn c = true -> 0 < timeout c -> tstart c <= now c ->
-    (d = Bare -> accepted c = true -> cutoff c = false) ->
     0 < dmin -> dmin <= dmax ->
     (Z.of_nat lag + 1) * dmax < tdur c ->
     tdur c <= Z.of_nat n * dmin ->
-    listening orc (nsock c) lag ->
+    listening orc (nsock c) lag -> no_raise orc ->
     paced ts dmin dmax ->
-    (n + lag + 2 <= length ts)%nat ->
+    (n + lag + 1 <= length ts)%nat ->
     let c' := run orc lname pname d c ts in accepted c' = true /\ cutoff c' = false.
 Proof.
-  intros orc lname pname d c ts lag n dmin dmax Hr Ht Hs HN H0 H1 HD Hn HL Hp Hl. cbv zeta.
-  apply (phA_run orc lname pname (nsock c) lag dmin dmax (tdur c) HL H0 H1 HD d n ts c); auto.
-  - unfold Inv. repeat split; auto.
-  - unfold rem. lia.
+  intros orc lname pname d c ts lag n dmin dmax Hr Ht Hs H0 H1 HD Hn HL HR Hp Hl. cbv zeta.
+  destruct n as [|m]; [exfalso; nia|].
+  assert (G : forall d', d' <> Bare ->
+              accepted (run orc lname pname d' c ts) = true /\ cutoff (run orc lname pname d' c ts) = false).
+  { intros d' Hd'.
+    apply (phA_run orc lname pname (nsock c) lag dmin dmax (tdur c) HL HR H0 H1 HD d' m ts c); auto.
+    - unfold Inv. repeat split; auto.
+    - unfold rem. lia.
+    - lia. }
+  destruct d; [rewrite run_bare|..]; apply G; discriminate.
 Qed.
 
 (* ------------------------------------------------------------------------------------- *)
@@ -337,20 +355,23 @@ Qed.
 Definition orc_lag1 (sid k : nat) : cres := match k with O => CINPROGRESS | _ => C0 end.
 
 Definition slow_inv (T : Z) (c : client) : Prop :=
-  accepted c = false /\ reconn c = true /\ timeout c = T /\ tdur c = T /\ tstart c = now c /\
-  (cs c = None \/ att c = 0%nat).
+  accepted c = false /\ cutoff c = false /\ reconn c = true /\ timeout c = T /\ tdur c = T /\
+  tstart c = now c /\ (cs c = None \/ att c = 0%nat).
 
 Lemma slow_step lname pname T c : 0 < T -> slow_inv T c ->
   slow_inv T (step orc_lag1 lname pname Bare c (T, false)).
 Proof.
-  intros HT (Ha & Hr & Ht & Hd & Hs & Hc). unfold Model.step. cbv zeta. cbn [fst snd Model.service].
+  intros HT (Ha & Hcu & Hr & Ht & Hd & Hs & Hc). unfold Model.step. cbv zeta. cbn [fst snd Model.service].
   assert (Ha2 : accepted (advance c T) = false)
     by (destruct c as [cs0 ? ? ? ? ? ? ? ? ? ? ? ? ? ?]; prims; exact Ha).
+  assert (Hcu2 : cutoff (advance c T) = false)
+    by (destruct c as [cs0 ? ? ? ? ? ? ? ? ? ? ? ? ? ?]; prims; exact Hcu).
+  unfold Model.serviceConnect. rewrite (branch_nocut _ Hcu2).
   destruct (sock0_some (advance c T)) as [sid Hsid].
   rewrite (sc_spec orc_lag1 lname pname _ sid Ha2 Hsid). cbv zeta.
   unfold slow_inv, sock0 in *.
   destruct c as [cs0 at0 ns0 op0 ac0 cu0 ca0 ha0 lh0 ts0 td0 to0 rc0 nw0 ev0].
-  cbv [Model.accepted Model.reconn Model.timeout Model.tdur Model.tstart Model.now Model.cs Model.att] in *.
+  cbv [Model.accepted Model.cutoff Model.reconn Model.timeout Model.tdur Model.tstart Model.now Model.cs Model.att] in *.
   subst. assert (Hto : (0 <? T) = true) by (apply Z.ltb_lt; lia).
   assert (He : (nw0 + T <=? nw0 + T) = true) by (apply Z.leb_le; lia).
   destruct Hc as [-> | ->]; [|destruct cs0]; prims; rewrite ?Hto, ?He; cbn [andb orc_lag1 classify];
@@ -374,12 +395,12 @@ Definition keeps (c c' : client) : Prop :=
   reconn c' = reconn c /\ timeout c' = timeout c /\ tdur c' = tdur c.
 Definition twf (c : client) : Prop := tstart c <= now c.
 
-Lemma keep_sc c : twf c -> keeps c (serviceConnect orc lname pname c) /\ twf (serviceConnect orc lname pname c).
+Lemma keep_sc c : twf c -> keeps c (sc_core orc lname pname c) /\ twf (sc_core orc lname pname c).
 Proof.
   intros H. destruct (accepted c) eqn:Ha.
-  - unfold Model.serviceConnect. rewrite Ha. unfold keeps. auto.
+  - unfold Model.sc_core. rewrite Ha. unfold keeps. auto.
   - destruct (sock0_some c) as [sid Hs]. rewrite (sc_spec orc lname pname c sid Ha Hs). cbv zeta.
-    destruct (classify _); [| destruct (reconn c && timed_out c) ..];
+    destruct (classify _); [| destruct (reconn c && timed_out c) .. |];
       unfold keeps, twf, sock0 in *; destruct c as [cs0 ? ? ? ? ? ? ? ? ? ? ? ? ? ?];
       destruct cs0; prims; repeat split; auto; lia.
 Qed.
@@ -397,20 +418,21 @@ Proof.
   { unfold keeps, twf. destruct c2 as [cs0 ? ? ? ? ? ? ? ? ? ? ? ? ? ?]; destruct cs0; prims; repeat split; auto; lia. }
   assert (TR : forall c3, keeps c2 c3 /\ twf c3 -> keeps c c3 /\ twf c3).
   { unfold keeps. intros c3 ((A & B & C) & W). repeat split; auto; congruence. }
-  destruct d; cbv [Model.service].
-  - apply TR, keep_sc, W2.
-  - unfold Model.patron_service. cbv zeta.
+  rewrite service_old.
+  assert (HP : keeps c (patron_old orc lname pname c2) /\ twf (patron_old orc lname pname c2)).
+  { unfold patron_old, Model.cutoff_branch. cbv zeta.
     destruct (cutoff c2 && reconn c2 && timed_out c2).
     + destruct (accepted (restart (reopen c2))); [apply TR, RR|].
       destruct RR as ((A & B & C) & W). destruct (keep_sc _ W) as ((A' & B' & C') & W').
       unfold keeps. repeat split; auto; congruence.
-    + destruct (accepted c2); [apply TR; unfold keeps; auto | apply TR, keep_sc, W2].
-  - unfold Model.stack_service. destruct (cutoff c2).
-    + destruct (reconn c2 && timed_out c2); [apply TR, RR | apply TR; unfold keeps; auto].
-    + destruct (accepted c2); [apply TR; unfold keeps; auto|]. cbv zeta.
-      destruct (keep_sc c2 W2) as (K & W).
-      destruct (accepted (serviceConnect orc lname pname c2)); [|apply TR; auto].
-      apply TR. unfold keeps, twf in *. destruct (serviceConnect orc lname pname c2). prims. auto.
+    + destruct (accepted c2); [apply TR; unfold keeps; auto | apply TR, keep_sc, W2]. }
+  destruct d; [exact HP | exact HP |].
+  unfold stack_old. destruct (cutoff c2).
+  + destruct (reconn c2 && timed_out c2); [apply TR, RR | apply TR; unfold keeps; auto].
+  + destruct (accepted c2); [apply TR; unfold keeps; auto|]. cbv zeta.
+    destruct (keep_sc c2 W2) as (K & W).
+    destruct (accepted (sc_core orc lname pname c2)); [|apply TR; auto].
+    apply TR. unfold keeps, twf in *. destruct (sc_core orc lname pname c2). prims. auto.
 Qed.
 
 Lemma keep_run d ts : forall c, Forall (fun t : tick => 0 <= fst t) ts -> twf c ->
@@ -425,18 +447,56 @@ Qed.
 End Keep.
 
 (* ------------------------------------------------------------------------------------- *)
+(* limit: an exception from connect_ex / getsockname propagates out of serviceConnect BEFORE its
+   timer check, so a socket whose connect_ex keeps raising is never replaced, by any driver *)
+Section Raising.
+Variable orc : nat -> nat -> cres.
+Variable lname pname : nat -> Z.
+
+Definition stuck (sid : nat) (c : client) : Prop :=
+  accepted c = false /\ cutoff c = false /\ cs c = Some sid.
+
+Lemma raise_step d sid c (t : tick) : (forall k, classify (orc sid k) = KRaise) ->
+  stuck sid c -> stuck sid (step orc lname pname d c t).
+Proof.
+  intros HR (Ha & Hc & Hs). unfold Model.step. cbv zeta.
+  set (c2 := if snd t then env_cut (advance c (fst t)) else advance c (fst t)).
+  assert (H2 : stuck sid c2).
+  { subst c2. unfold stuck. destruct c as [cs0 ? ? ? ? ? ? ? ? ? ? ? ? ? ?]. prims. subst.
+    destruct (snd t); prims; cbn; auto. }
+  clearbody c2. destruct H2 as (Ha2 & Hc2 & Hs2).
+  assert (G : stuck sid (sc_core orc lname pname c2)).
+  { assert (Hs0 : cs (sock0 c2) = Some sid) by (unfold sock0; rewrite Hs2; exact Hs2).
+    rewrite (sc_spec orc lname pname c2 sid Ha2 Hs0). cbv zeta. rewrite HR.
+    unfold stuck, sock0. rewrite Hs2. destruct c2 as [cs0 ? ? ? ? ? ? ? ? ? ? ? ? ? ?]. prims. auto. }
+  rewrite service_old.
+  assert (HP : stuck sid (patron_old orc lname pname c2)).
+  { unfold patron_old. rewrite (branch_nocut c2 Hc2). cbv zeta. rewrite Ha2. exact G. }
+  destruct d; [exact HP | exact HP |].
+  unfold stack_old. rewrite Hc2, Ha2. cbv zeta. destruct G as (G1 & G2 & G3). rewrite G1.
+  unfold stuck. auto.
+Qed.
+
+Lemma raise_run d sid ts : (forall k, classify (orc sid k) = KRaise) ->
+  forall c, stuck sid c -> stuck sid (run orc lname pname d c ts).
+Proof.
+  intros HR. induction ts as [|t ts IH]; intros c H; [exact H|].
+  rewrite run_cons. apply IH, raise_step; auto.
+Qed.
+End Raising.
+
+(* ------------------------------------------------------------------------------------- *)
 (* closed statements used by Props.v *)
 Lemma reconnect_after_any_history_lem :
   forall orc lname pname d ha0 tmo (pre ts : list tick) lag n dmin dmax,
     0 < tmo -> Forall (fun t : tick => 0 <= fst t) pre ->
     let c := run orc lname pname d (start d ha0 tmo true) pre in
-    (d = Bare -> accepted c = true -> cutoff c = false) ->
     0 < dmin -> dmin <= dmax -> (Z.of_nat lag + 1) * dmax < tmo -> tmo <= Z.of_nat n * dmin ->
-    listening orc (nsock c) lag -> paced ts dmin dmax -> (n + lag + 2 <= length ts)%nat ->
+    listening orc (nsock c) lag -> no_raise orc -> paced ts dmin dmax -> (n + lag + 1 <= length ts)%nat ->
     let c' := run orc lname pname d (start d ha0 tmo true) (pre ++ ts) in
     accepted c' = true /\ cutoff c' = false.
 Proof.
-  intros orc lname pname d ha0 tmo pre ts lag n dmin dmax Ht Hpre c HN H0 H1 HD Hn HL Hp Hl.
+  intros orc lname pname d ha0 tmo pre ts lag n dmin dmax Ht Hpre c H0 H1 HD Hn HL HR Hp Hl.
   cbv zeta. rewrite run_app. fold c.
   assert (W0 : twf (start d ha0 tmo true)) by (destruct d; cbv; discriminate).
   destruct (keep_run orc lname pname d pre _ Hpre W0) as ((K1 & K2 & K3) & W). fold c in K1, K2, K3, W.
